@@ -210,6 +210,29 @@ Definition run_case (x : sexp) : sexp :=
         end
       | _ => obs_bad
       end
+    else if op =? "so-sinkmodel" then
+      (* (so-sinkmodel #header (payloads #p|(none) ...) (script default (a n)|(f)|(i) ...)) : one
+         GenericSingleObjectWriter reused for every payload against one scripted sink *)
+      match args with
+      | [Hex h; L (Sym _ :: ps); L (Sym _ :: Num dflt :: bs)] =>
+        match mapM (fun x => match x with Hex b => Some (Some b) | L [Sym _] => Some None | _ => None end) ps,
+              mapM (fun b => match b with
+                             | L [Sym t; Num n] => if t =? "a" then Some (Accept (Z.to_N n)) else None
+                             | L [Sym t] => if t =? "f" then Some Fail
+                                            else if t =? "i" then Some Interrupted else None
+                             | _ => None end) bs with
+        | Some payloads, Some script =>
+          let '(outs, _, s') := sow_run h (mkSink script (Z.to_N dflt) [] 0) payloads in
+          L (Sym "ok" :: Hex (sk_data s') ::
+             map (fun o : option nat * bytes =>
+                    match fst o with
+                    | Some n => L [Sym "ok"; Num (Z.of_nat n); Hex (snd o)]
+                    | None => L [Sym "err"; Hex (snd o)]
+                    end) outs)
+        | _, _ => obs_bad
+        end
+      | _ => obs_bad
+      end
     else if op =? "settings" then
       (* (settings (g v) | (s v) ...) : one linearised schedule on one write-once cell *)
       match mapM (fun o => match o with
